@@ -472,7 +472,7 @@ class StmtMixin:
                         pass
             for region, addr in loop_allowed:
                 self.havoc_region(h, region, addr)
-                if region == "dict" and addr is not None and addr.get_id() in self._mod_values:
+                if region == "dict" and addr is not None and not callable(addr) and addr.get_id() in self._mod_values:
                     dv = self._mod_values[addr.get_id()]
                     if dv.kind.target.k is not None:
                         h.assume(self.dict_wf(h, dv))
